@@ -9,6 +9,8 @@ Oracle clauses:
                              points yields the same (unwrapped) replies and the same process-visible event log and outcome
   reply_vs_call              (deliveries at arbitrary virtual times, delayed / duplicated / reordered) the reply equals the
                              unwrapped return value of the control call the handler actually made
+  thread_unsafe_scheduling   a subscriber callback (which runs in the communicator's thread in production) schedules work
+                             on the process's loop through call_soon / create_task instead of a thread-safe entry point
   reply_is_future            RemoteProcessController hands back a future object as "the reply"
   reply_pending              a reply future never completes although the loop is quiescent
   remote_kill_lost           a kill handled while the process was live did not end it KILLED (EXCEPTED if the step failed)
@@ -415,6 +417,12 @@ def _oracle_single(case, engine, proc, communicator, data, result, late_reply, c
                 result.counters['msg:thread_controller'] += 1
     if any(c[4] for c in handled_live):
         result.counters['probe:handled_while_stepping'] += 1
+
+    # -- subscriber callbacks run in the communicator's thread in production: only thread-safe scheduling from there --------
+    if engine.loop.thread_violations:
+        result.violate('thread_unsafe_scheduling', engine.loop.thread_violations[0].split('(')[0],
+                       f'while handling a message in the communicator\'s thread the process scheduled work on its loop through '
+                       f'a non-thread-safe call: {engine.loop.thread_violations[:3]}')
 
     # -- replies ----------------------------------------------------------------------------------------
     by_text = {}
